@@ -42,7 +42,7 @@ func init() {
 		"DESIGN.md §5 C02, §4.3, §4.4",
 		[]string{"semantics of match (C01)", "uniqueness of document IDs at run time"},
 		nil,
-		ruleC02Select, ruleMergeSourcesPrivate("C02.indep"), ruleFieldWriterCensus("C02.order"))
+		ruleC02Select, ruleMergeSourcesPrivate("C02.indep"), ruleFieldWriterCensus("C02.order"), ruleSmallContracts("C02.helper", "matchdoc"), ruleQueryMethods("C02.query"))
 
 	mk("C03", "Inheritance chain is resolved from filenames and $parent, base first",
 		"path-effect summaries of loadFileAndParents / parents / parentsFromDirective / parentsFromFilename / toAbsolutePaths / globFiles / parentsFromSymlink / MergeFile and of cmd/bkl.main",
@@ -66,7 +66,7 @@ func init() {
 		"DESIGN.md §5 C05",
 		[]string{"decode(encode(x)) = x for look-alike strings, doubles, empty containers (third-party codecs)", "agreement with independent parsers"},
 		nil,
-		ruleC05Table, ruleC05Sep, ruleC05All, ruleBklMainFormat, ruleTypedNil("C05.typednil"), ruleFilepath("C05.path"))
+		ruleC05Table, ruleC05Sep, ruleC05All, ruleC05File, ruleBklMainFormat, ruleTypedNil("C05.typednil"), ruleFilepath("C05.path"), ruleSmallContracts("C05.helper", "getformat"))
 
 	mk("C06", "Plain data passes through unchanged; $$ escapes any literal dollar",
 		"interprocedural may-be-nil analysis of every map/slice boxed into a tree value (an empty map or list is never replaced by a typed nil); path-effect summaries of finalizeOutput, validate, outputDocument and the process1 family; census of every $-literal used to recognise directives; call-graph check that the unescape is applied exactly once",
@@ -98,7 +98,7 @@ func init() {
 		"DESIGN.md §5 C09, §4.5, §4.7",
 		[]string{"determinism of the codecs, the Go runtime and the OS", "which of several errors is reported first (only success/failure is covered)"},
 		[]string{"One file per layer name (the property's own precondition) for findFile's map range."},
-		ruleMapRanges, ruleSortedMap, ruleGlobals, rulePools, ruleNondetSources, ruleMergeSourcesPrivate("C09.alias"))
+		ruleMapRanges, ruleSortedMap, ruleGlobals, rulePools, ruleNondetSources, ruleMergeSourcesPrivate("C09.alias"), ruleQueryMethods("C09.query"), ruleMemoised("C09.memo"))
 
 	mk("C10", "$merge and $replace behave as if the referenced subtree were written inline",
 		"path-effect summaries of Document.Process (phase order), the process1 family (dispatch), get/getPath/getCross/getCrossDoc (lookup tables), matchMap (placeholder rule); ownership analysis: results of get never reach a mutating position",
@@ -106,7 +106,7 @@ func init() {
 		"DESIGN.md §5 C10",
 		[]string{"keys containing dots", "interaction of references with $output: false templates beyond the phase order"},
 		nil,
-		ruleC10Phase, ruleC10Dispatch, ruleC10Lookup, ruleC10Universe, ruleReferencesReadOnly, ruleC01Match)
+		ruleC10Phase, ruleC10Dispatch, ruleC10Lookup, ruleC10ListRef, ruleC10Universe, ruleReferencesReadOnly, ruleC01Match, ruleSmallContracts("C10.helper", "matchdoc", "getcopy"))
 
 	mk("C11", "$output selects exactly the marked subtrees and hides exactly the excluded ones",
 		"path-effect summaries of findOutputs, filterOutput and outputDocument against the selection / hiding tables",
@@ -114,7 +114,7 @@ func init() {
 		"DESIGN.md §5 C11",
 		[]string{"interaction with references copied out of hidden trees"},
 		nil,
-		ruleC11Select, ruleC11Hide, ruleOutputGate("C11"), ruleMarkerHelpers("C11.marker"))
+		ruleC11Select, ruleC11Hide, ruleOutputGate("C11"), ruleMarkerHelpers("C11.marker"), ruleOutputFresh)
 
 	mk("C12", "$repeat expands to exactly n indexed copies (cartesian product for named counts)",
 		"induction-variable analysis of the three counted loops (0 <= i < n, step 1, i bound on a per-iteration clone of the context), lockstep analysis of the documents/contexts slices, path-effect summaries of repeatDoc*, process2RepeatObj*",
@@ -130,7 +130,7 @@ func init() {
 		"DESIGN.md §5 C13",
 		[]string{"%v formatting of non-string values", "literal } and : inside templates"},
 		nil,
-		ruleC13, ruleC13Vars, ruleC12Loops)
+		ruleC13, ruleC13Vars, ruleC12Loops, ruleMemoised("C13.memo"))
 
 	mk("C14", "$encode produces the named standard encodings and $decode inverts them",
 		"path-effect summaries of process2EncodeString per transform branch (callee and operand of the standard-library implementation), sibling cross-check of argument-count guards, left-to-right fold of process2EncodeAny, $decode type table and must-pass-through normalize",
@@ -162,7 +162,7 @@ func init() {
 		"DESIGN.md §5 C17",
 		[]string{"nothing further: idempotence follows from the table"},
 		nil,
-		ruleC17Table, ruleMarkerVocabulary("C17.marker", map[string][]string{"cmd/bklr": {"$required"}}), ruleValidate("C17"), ruleStripMarker("C17.strip"))
+		ruleC17Table, ruleMarkerVocabulary("C17.marker", map[string][]string{"cmd/bklr": {"$required"}}), ruleValidate("C17"), ruleStripMarker("C17.strip"), ruleC17Main, ruleTypedNil("C17.typednil"))
 
 	mk("C18", "With a root directory set, nothing outside it is ever read",
 		"who-may-call census of file-content APIs (only (*os.Root).Open on the parser's root and stdin), frozen list of metadata probes, writer census and path summary of SetRoot (roots only narrow), data-flow of the path handed to root.Open, dominance of SetRoot over loading in cmd/bkl.main",
@@ -170,7 +170,7 @@ func init() {
 		"DESIGN.md §5 C18",
 		[]string{"os.Root's own guarantees", "independence from the existence of outside files (probes bypass the root by design; frozen, not proven harmless)"},
 		nil,
-		ruleC18Read, ruleC18Probe, ruleC18Root, ruleBklMainRoot)
+		ruleC18Read, ruleC18Probe, ruleC18Root, ruleBklMainRoot, ruleSmallContracts("C18.helper", "stdin"))
 
 	mk("C19", "Producing output is a pure observation of parser state",
 		"interprocedural mutation summaries (may-write analysis over the call graph): no write reachable from an output method targets anything derived from the parser; evaluation is applied to (*Document).Clone results only; Clone deep-copies",
@@ -178,7 +178,7 @@ func init() {
 		"DESIGN.md §5 C19, §4.4",
 		[]string{"byte equality of repeated calls (follows from C19.pure + C09, not checked separately)"},
 		nil,
-		ruleOutputPure, ruleCloneContract("C19.clone"), ruleDeepClone, ruleFieldWriterCensus("C19.docs"))
+		ruleOutputPure, ruleCloneContract("C19.clone"), ruleDeepClone, ruleFieldWriterCensus("C19.docs"), ruleQueryMethods("C19.query"))
 
 	mk("C20", "bklb/kubectl-bkl rewrite only file arguments; all else passes through",
 		"path-effect summaries of wrapper.WrapOrDie and cmd/bklb.main: argv construction, the only store into the argument copy, error paths ending before exec",
